@@ -53,7 +53,9 @@ P["C05"] = dict(cat="proof",
          "graph as a witness the judge verifies (expected yes), non-graphic cores verified by the brute-force oracle give expected no "
          "by heredity; verdict vs. brute-force definition for <= 4 rows (both entry points).",
     note=NOTE_COMMON + "The brute-force oracle graphic_bf is proved sound for 'yes' via the certificate; its completeness (a 'no' of the oracle means non-graphic) "
-         "rests on the enumeration of all forests on m+1 nodes and is not formalised. graphic.c (Bixby-Wagner) is not modelled.",
+         "rests on the enumeration of all forests on m+1 nodes and is not formalised. The certificate checker is proved EQUIVALENT to the "
+         "Prop-level specification (GraphComplete.v), and the certified class closed under submatrices (GraphicClosure.v). graphic.c "
+         "(Bixby-Wagner) is not modelled.",
     tech="Coq-verified certificate checker + brute-force definition oracle (<= 4 rows) run against CMRgraphicTest*", ref="DESIGN.md C05")
 P["C06"] = dict(cat="proof",
     text="Coq-verified signed certificate checker check_network_cert (signs along the tail-to-head path with arc reversals); support "
@@ -107,7 +109,8 @@ P["C04"] = dict(cat="proof",
          "stored determinant minors have |det| >= 2, R10 nodes represent R10, non-zero flags agree with the proved oracles where these apply. "
          "Tie: every node of every dumped tree (constructLeafGraphs / constructAllGraphs / planarityCheck / stop flags in the parameter product).",
     note=NOTE_COMMON + "flags at nodes larger than the oracle bounds (36 entries; 4 rows/columns for (co)graphicness) are not compared with a definition; "
-         "the bottom-up propagation rules rest on classical closure facts that are not formalised.",
+         "the bottom-up propagation rule for the regularity flag is a theorem for 1-sum, 2-sum, series-parallel and pivot nodes (OneSum.v, "
+         "RegClosure.v, RegPivot.v); for Delta-, Y- and 3-sum nodes it is Seymour's theorem, which is not formalised.",
     tech="Coq-verified certificate checkers + definition-level oracles on small nodes", ref="DESIGN.md C04")
 P["C10"] = dict(cat="proof",
     text="Coq (all shapes): the definition-level oracles are invariant under exactly the transforms the judge accepts - tu_bf (= the "
@@ -116,9 +119,10 @@ P["C10"] = dict(cat="proof",
          "pivot model of CMRchrmatTernaryPivot keeps tu_bf); sp_greedy (= SP-reducibility) and balanced_bf likewise (scaling for ternary "
          "matrices). judge_rel is proved to check that M' is the stated transform of M and to demand equal / swapped / yes=>yes verdicts. "
          "Tie: ten recognizers x five decomposition strategies on transformed presentations of random, structured and large (up to ~40x40) matrices.",
-    note=NOTE_COMMON + "closure of graphicness / network / regularity under the line operations are classical facts not formalised here (the judge "
-         "demands them; the theorems cover TU incl. ternary pivots, regularity under binary pivots, SP and balancedness); 'Camion-signed' is compared only "
-         "when a presentation is reported TU.",
+    note=NOTE_COMMON + "also proved: regularity and balancedness under zero/unit/duplicated lines, regular submatrices / transposition / 2-sums, "
+         "1-sums for TU, regular, balanced, SP (OneSum.v, RegClosure.v, BalClosure.v), and graphicness - as defined by certificates - under "
+         "permutation, reducible lines and submatrices (GraphicClosure.v). Not formalised: the signed (network) analogue unless NetworkClosure.v "
+         "is listed in DESIGN.md, and Delta-/Y-/3-sums; 'Camion-signed' is compared only when a presentation is reported TU.",
     tech="Coq closure theorems for the oracles + Coq-checked transform relation + metamorphic comparison of verdicts", ref="DESIGN.md C10")
 P["C11"] = dict(cat="proof",
     text="Coq: model of the LIFO scratch-stack allocator of env.c (_CMRallocStack/_CMRfreeStack/CMRgetStackUsage): invariant, alloc;free "
@@ -131,7 +135,7 @@ P["C11"] = dict(cat="proof",
     note=NOTE_COMMON + "PARTIAL: crashes, failed assertions, memory errors and heap leaks are runtime behaviour no Coq model of this C "
          "code exhibits; for them the check is a sanitized exploration of the listed streams (sampled per stream), not a proof. The theorems "
          "cover the stack discipline, which turns 'stack back at its pre-call level' into the observable usage comparison. CLI tools: "
-         "only through C20's readers/writers.",
+         "through the command-line streams of the functional properties (tools/clilib.py) and C20's readers/writers.",
     tech="Coq proof about the allocator model + trace correspondence + sanitized replay of all streams", ref="DESIGN.md C11")
 P["C16"] = dict(cat="proof",
     text="Coq: equimod_all is the definition of doc/equimodular.md made executable (for some column basis B the gcd of the r x r "
